@@ -28,8 +28,9 @@ def lru_stems_from_parsed_url(parsed_url, suffix_aware=True):
     password = None
 
     # Handling auth
+    # NOTE: like the standard parser, the host starts after the last "@"
     if "@" in netloc:
-        auth, netloc = netloc.split("@", 1)
+        auth, netloc = netloc.rsplit("@", 1)
 
         if ":" in auth:
             user, password = auth.split(":", 1)
